@@ -151,6 +151,8 @@ def reg_script(s, rnd):
         if c < 0.85:
             return "FS:" + (s.name.lower() if rnd.random() < 0.8 else "no_such_schema")
         return "OC:" + rnd.choice(ents)
+    if not ents:
+        return "CE RE AE RT CE AT RS CE AS RT NT CE AT".split()
     e0 = ents[0]
     ops = f"CE RE AE  RE CE AE  RE NE CE AE  RE NE NE CF FE:{e0} OC:{e0} AE  RT CE NT AT  RS CE AS  " \
           f"RE NE RT NT CE AT NE RS NS AS AE  RE AE NE CE RE AE".split()
@@ -289,7 +291,18 @@ def classify_type(s, n):
     return "simple"
 
 
-def oracle(R):
+COMPANION_SUFFIXES = ["_var", "_agg", "_ptr", "_ptr_c", "_var_agg", "_agg_ptr", "_agg_ptr_c", "_var_ptr", "_var_ptr_c",
+                      "_var_agg_ptr", "_var_agg_ptr_c", "__set", "__set_var"]
+
+
+def companion_collision(s):
+    """a declaration named x<suffix> next to a declaration x, for a suffix exp2cxx appends to Sdai<X> for companion
+    classes / typedefs / macros (C02_mangle_collision_iff_enum, …_select_agg): the generated names coincide"""
+    names = {e["name"].lower() for e in s.entities} | {t["name"].lower() for t in s.types}
+    return sorted((n, n + suf) for n in names for suf in COMPANION_SUFFIXES if n + suf in names)
+
+
+def oracle_raw(R):
     """C02's statement on the implementation's dump.  Returns list of (key, what, decl) — decl = ('type'|'entity', name)."""
     s = R.schema
     if R.status == "gen-fail":
@@ -379,6 +392,16 @@ def oracle(R):
         dup = [i for i, v in R.idx.items() if len(v) > 1]
         if dup or sorted(R.idx) != list(range(n_attr)):
             probs.append(("numbering", f"descriptor variable numbers {sorted(R.idx)} are not a bijection onto 0..{n_attr - 1} (duplicates {dup})", None))
+    return probs
+
+
+def oracle(R):
+    """`oracle_raw`, with everything that goes wrong in a schema containing a companion-name collision (x next to x_var, x_agg,
+    x_ptr …: same generated class AND file name, the second file silently overwrites the first) reported as that one finding"""
+    probs = oracle_raw(R)
+    col = companion_collision(R.schema)
+    if probs and col:
+        return [("names:companion-collision", f"declarations {col} generate the same C++ class / file name: " + probs[0][1], None)]
     return probs
 
 
